@@ -103,7 +103,7 @@ def run(R):
         R.violation("harness does not build against /repo", {"build_log": R.harness_log[-3000:]}, no_input=True)
         return
     corpus = vlib.load_corpus(PID)
-    n = 1500 if R.tier == "quick" else 40000
+    n = 1500 if R.tier == "quick" else 120000
     cases = corpus + [gen_repo.gen_repo_case(R.rng, max_ops=14) for _ in range(n)]
     impl, model, nbad = rc.check_correspondence(R, exe, cases, "rule-set history")
     # SPEC oracle on the implementation itself: history vs fresh load of the current rule sets
